@@ -116,7 +116,10 @@ func (ctx Ctx) coqTypeOfType(n ast.Node, t types.Type) coq.Type {
 	case *types.Signature:
 		ctx.unsupported(n, "function type")
 	case *types.Interface:
-		return coq.InterfaceDecl{Name: ""}
+		if t.Empty() {
+			return coq.TypeIdent("anyT")
+		}
+		ctx.unsupported(n, "unnamed non-empty interface type")
 	}
 	ctx.nope(n, "unknown type %v", t)
 	return nil // unreachable
